@@ -10,6 +10,15 @@
 (***************************************************************************)
 EXTENDS Naturals, Sequences, FiniteSets
 
+\* the serialize_all values strum accepts (Heck.tla: AcceptedStyles; repeated here because this module does not need the conversion itself;
+\* MC_Reject checks the two lists equal)
+KnownStyles == {"camelCase", "PascalCase", "kebab-case", "snake_case", "SCREAMING_SNAKE_CASE", "SCREAMING-KEBAB-CASE", "lowercase", "UPPERCASE",
+                "title_case", "mixed_case", "Train-Case", "camel_case", "snek_case", "kebab_case", "shouty_snake_case", "shouty_snek_case"}
+\* near misses of them: the other separator, another capitalisation, surrounding blanks, no separator
+NearMissStyles == {"Snake_Case", "", "kebabcase", "snake-case", "Train_Case", "SCREAMING_KEBAB_CASE", "SCREAMING-SNAKE-CASE", "title-case", "mixed-case",
+                   "camel-case", "Kebab-Case", "train-case", "TRAIN-CASE", "Lowercase", "uppercase", "PASCALCASE", "pascalCase", "CamelCase",
+                   "snake_case ", " snake_case", "snake case", "shouty-snake-case", "SNAKE_CASE"} \ KnownStyles
+
 Derives == {"EnumString", "AsRefStr", "IntoStaticStr", "Display", "VariantNames", "VariantArray", "EnumIter", "EnumCount",
             "EnumIs", "EnumTryAs", "EnumTable", "FromRepr", "EnumMessage", "EnumProperty", "EnumDiscriminants"}
 
@@ -61,10 +70,11 @@ BaseInstances ==
   \cup {Inst("default_arity", d, "default", s, p, FALSE) : d \in {"EnumString", "Display"}, s \in {"unit", "tuple2", "named2", "tuple0"}, p \in {"first", "last"}}
   \cup {Inst("transparent_arity", d, "transparent", s, p, FALSE) : d \in {"Display", "AsRefStr", "IntoStaticStr"}, s \in {"unit", "tuple2", "named2", "tuple0"}, p \in {"first", "last"}}
   \* placeholders on a unit variant; an empty {} on a tuple variant
-  \cup {Inst("unit_placeholder", "Display", "to_string", s, p, FALSE) : s \in {"index", "name", "spec", "via_serialize", "via_prefix"}, p \in {"first", "last"}}
+  \cup {Inst("unit_placeholder", "Display", "to_string", s, p, FALSE) : s \in {"index", "name", "spec", "via_serialize", "via_prefix",
+                                                                            "nonascii_arg", "nonascii_before", "nonascii_around", "nonascii_prefix"}, p \in {"first", "last"}}
   \cup {Inst("empty_placeholder", "Display", "to_string", "tuple1", p, FALSE) : p \in {"first", "last"}}
   \* an unknown serialize_all style
-  \cup {Inst("unknown_style", d, "serialize_all", s, "", FALSE) : d \in UsesEnumKw("serialize_all"), s \in {"Snake_Case", "", "kebabcase"}}
+  \cup {Inst("unknown_style", d, "serialize_all", s, "", FALSE) : d \in UsesEnumKw("serialize_all"), s \in NearMissStyles}
   \* only one of parse_err_ty / parse_err_fn
   \cup {Inst("lone_parse_err", "EnumString", k, s, "", FALSE) : k \in {"parse_err_ty", "parse_err_fn"}, s \in {"", "with_default_first", "with_default_last"}}
   \* an unsupported property literal
